@@ -19,7 +19,7 @@ RULE = (
   "non-trivial = some actuator saturates a limit or has activation dynamics"
 )
 ASSUMPTIONS = ["MuJoCo C 3.13 is the reference", "tolerance 5e-4 relative to the field scale", "position servos on ball joints with |ctrl-length|>pi are the recorded finding ball-position-wrap"]
-BUDGET = {"quick": dict(examples=480, seconds=150, workers=16), "thorough": dict(examples=12000, seconds=1500, workers=16)}
+BUDGET = {"quick": dict(examples=480, seconds=420, workers=16), "thorough": dict(examples=12000, seconds=1500, workers=16)}
 
 
 def strategy(tier):
